@@ -1,6 +1,14 @@
 //@@ unit props=C19,C01,C10,C16,C17,C06
 // Unit xlsxxml: the XML-event-consuming functions of the xlsx reader (src/xlsx/mod.rs, src/xlsx/cells_reader.rs), verbatim text,
 // under contract against a GHOST MODEL of quick-xml (assumption A-xml of DESIGN.md section 5).
+//   read_string (C19: plain / rich runs / phonetic ignored / reader left after the closing tag), Xlsx::read_shared_strings (C19: item i
+//   of the table), get_attribute, read_merge_cells (C17: regions in order), read_v + read_value (C01/C10: value typing, date system),
+//   XlsxCellReader::next_cell (C01: position = r attribute else cursor, cursor updates), Cell::new, ExcelDateTime::new,
+//   format_excel_f64_ref, get_row_column, get_row.  Assumed: get_row_and_optional_column (proved in unit a1), get_dimension,
+//   xml_reader, FromStr for CellErrorType, float / integer parsing, the quick-xml model below.
+//   Specifications are schema automata written from ECMA-376 (CT_Rst, CT_Sst, CT_MergeCells, CT_Cell / ST_CellType, sheetData) over
+//   the event sequence, in terms of LOCAL names and UNESCAPED text; every clause that the code satisfies only for unprefixed names /
+//   without CDATA is split into a proved clause (with that antecedent) and a general clause that FAILS (findings/xlsxxml.json).
 #![allow(unused_imports, dead_code, unused_variables, unused_mut, unused_assignments)]
 use vstd::prelude::*;
 use std::borrow::Cow;
@@ -46,6 +54,12 @@ impl From<quick_xml::Error> for XlsxError { fn from(e: quick_xml::Error) -> (r: 
 impl vstd::std_specs::convert::FromSpecImpl<quick_xml::Error> for XlsxError {
     open spec fn obeys_from_spec() -> bool { true }
     open spec fn from_spec(e: quick_xml::Error) -> Self { XlsxError::Xml(e) }
+}
+// what `from_err!(quick_xml::encoding::EncodingError, XlsxError, Encoding)` expands to
+impl From<quick_xml::encoding::EncodingError> for XlsxError { fn from(e: quick_xml::encoding::EncodingError) -> (r: XlsxError) { XlsxError::Encoding(e) } }
+impl vstd::std_specs::convert::FromSpecImpl<quick_xml::encoding::EncodingError> for XlsxError {
+    open spec fn obeys_from_spec() -> bool { true }
+    open spec fn from_spec(e: quick_xml::encoding::EncodingError) -> Self { XlsxError::Encoding(e) }
 }
 
 // =====================================================================================================================
@@ -110,6 +124,17 @@ impl<'a> LocalName<'a> {
     // TRUSTED: A-xml
     #[verifier::external_body]
     pub fn as_ref(&self) -> (r: &[u8]) ensures r@ == self.bytes() { unimplemented!() }
+    // TRUSTED: A-xml
+    #[verifier::external_body]
+    pub fn into_inner(self) -> (r: &'a [u8]) ensures r@ == self.bytes() { unimplemented!() }
+}
+impl<'a> QName<'a> {
+    /// the QUALIFIED name bytes (quick-xml `impl AsRef<[u8]> for QName`)
+    pub fn as_ref(&self) -> (r: &[u8]) ensures r@ == self.0@ { self.0 }
+    pub fn into_inner(self) -> (r: &'a [u8]) ensures r@ == self.0@ { self.0 }
+    // TRUSTED: A-xml -- the part after the first ':' (the whole name if there is none)
+    #[verifier::external_body]
+    pub fn local_name(&self) -> (r: LocalName<'a>) ensures r.bytes() == local_of(self.0@) { unimplemented!() }
 }
 // TRUSTED: A-xml -- quick_xml::events::{BytesStart, BytesEnd, BytesText, BytesCData}: views onto one ghost event
 #[verifier::external_body]
@@ -167,11 +192,47 @@ impl<'a> BytesText<'a> {
 impl<'a> BytesCData<'a> {
     pub uninterp spec fn ev(&self) -> Ev;
 }
+// TRUSTED: A-xml -- `impl Deref<Target = [u8]>` of BytesText / BytesCData: the bytes of the event AS WRITTEN in the document (`raw`:
+// entity and character references NOT resolved).  Nothing relates `raw` to `text`.
+impl<'a> Deref for BytesText<'a> {
+    type Target = [u8];
+    #[verifier::external_body]
+    fn deref(&self) -> (r: &[u8]) ensures r@ == self.ev().raw { unimplemented!() }
+}
+impl<'a> Deref for BytesCData<'a> {
+    type Target = [u8];
+    #[verifier::external_body]
+    fn deref(&self) -> (r: &[u8]) ensures r@ == self.ev().raw { unimplemented!() }
+}
+// TRUSTED: A-xml -- quick_xml::encoding::Decoder: `decode` converts bytes to text in the document encoding and does NOTHING else (no entity
+// resolution): an uninterpreted function of the bytes
+pub struct Decoder { _p: u8 }
+/// text of a byte string in the document encoding; None: not decodable
+pub uninterp spec fn decoded(bytes: Seq<u8>) -> Option<Seq<char>>;
+impl Decoder {
+    #[verifier::external_body]
+    pub fn decode<'b>(&self, bytes: &'b [u8]) -> (r: Result<Cow<'b, str>, quick_xml::encoding::EncodingError>)
+        ensures match decoded(bytes@) { Some(t) => r is Ok && cow_ref(&r->Ok_0)@ == t, None => r is Err },
+    { unimplemented!() }
+}
 
 // TRUSTED: A-xml -- quick_xml::events::attributes::{Attribute, Attributes}: `BytesStart::attributes()` iterates over the attributes of
 // the start tag in document order; each item is Ok(Attribute { key, value }) with the qualified attribute name and the RAW value bytes
 // borrowed from the tag (`Cow::Borrowed`; nothing is unescaped), or Err(AttrError) for a malformed attribute.
 pub struct Attribute<'a> { pub key: QName<'a>, pub value: Cow<'a, [u8]> }
+/// attribute value with entity / character references resolved, as a function of the raw bytes (uninterpreted); None: `unescape` fails
+pub uninterp spec fn attr_unescaped(raw: Seq<u8>) -> Option<Seq<char>>;
+impl<'a> Attribute<'a> {
+    // TRUSTED: A-xml -- Attribute::unescape_value / decode_and_unescape_value: the value with references resolved (`Attr::val`), never the raw bytes
+    #[verifier::external_body]
+    pub fn unescape_value(&self) -> (r: Result<Cow<'a, str>, quick_xml::Error>)
+        ensures match attr_unescaped(cow_ref(&self.value)@) { Some(t) => r is Ok && cow_ref(&r->Ok_0)@ == t, None => r is Err },
+    { unimplemented!() }
+    #[verifier::external_body]
+    pub fn decode_and_unescape_value(&self, decoder: Decoder) -> (r: Result<Cow<'a, str>, quick_xml::Error>)
+        ensures match attr_unescaped(cow_ref(&self.value)@) { Some(t) => r is Ok && cow_ref(&r->Ok_0)@ == t, None => r is Err },
+    { unimplemented!() }
+}
 #[verifier::external_body]
 pub struct Attributes<'a> { _p: core::marker::PhantomData<&'a ()> }
 impl<'a> Attributes<'a> {
@@ -188,7 +249,8 @@ impl<'a> Iterator for Attributes<'a> {
             old(self).rem().len() > 0 ==> r is Some && final(self).rem() == old(self).rem().skip(1)
                 && (old(self).rem()[0].err ==> r->Some_0 is Err)
                 && (!old(self).rem()[0].err ==> r->Some_0 is Ok && (r->Some_0->Ok_0).key.0@ == old(self).rem()[0].key
-                     && ((r->Some_0->Ok_0).value matches Cow::Borrowed(v) && v@ == old(self).rem()[0].raw)),
+                     && ((r->Some_0->Ok_0).value matches Cow::Borrowed(v) && v@ == old(self).rem()[0].raw)
+                     && attr_unescaped(old(self).rem()[0].raw) == (if old(self).rem()[0].val_ok { Some(old(self).rem()[0].val) } else { None::<Seq<char>> })),
     { unimplemented!() }
 }
 impl<'a> BytesStart<'a> {
@@ -238,6 +300,9 @@ impl<'a> XlReader<'a> {
     pub uninterp spec fn events(&self) -> Seq<Ev>;
     pub uninterp spec fn pos(&self) -> nat;
     pub open spec fn left(&self) -> int { if self.pos() >= self.events().len() { 0 } else { self.events().len() - self.pos() } }
+    // TRUSTED: A-xml -- Reader::decoder(): does not touch the reader
+    #[verifier::external_body]
+    pub fn decoder(&self) -> (r: Decoder) { unimplemented!() }
 
     // TRUSTED: A-xml -- returns events[pos] and advances; at the end of input returns Eof for ever
     #[verifier::external_body]
@@ -591,7 +656,7 @@ proof fn witness_rst_none()
                         good ==> rst_step(ev[xml.pos() - 1], RstSt { tbuf: value@, ..st1 }, cl) == RstStep::Next(st),
                         good ==> ev[xml.pos() - 1].kind is End && ev[xml.pos() - 1].name == st1.tname,
                     decreases xml.left(),
-//@@ before /let mut value = String::new\(\);/
+//@@ before /let mut value = String::new/
                 let ghost st1 = st;
                 proof {
                     assert(pos < ev.len());
@@ -1260,7 +1325,7 @@ map_err(|e| XlsxError::ParseFloat(e))
             }
 //@@ before /Ok\(DataRef::Error/
             proof { lemma_t_names(__t@); }
-//@@ before /Ok\(DataRef::DateTimeIso\(v\)\)/
+//@@ before /Ok\(DataRef::DateTimeIso/
             proof { lemma_t_names(__t@); }
 //@@ closure 0
     -> (res: DataRef<'static>) ensures res == num_value(n, match cell_format { Some(f) => Some(*f), None => None }, is_1904)
@@ -1612,11 +1677,11 @@ proof fn witness_next_scan(cx: ShCtx)
             let ghost gp = self.xml.pos() as int;
             let ghost cur0 = Cur { row: self.row_index as int, col: self.col_index as int };
             proof { if good { lemma_next_end(ev, gp, cur0, cx); } }
-//@@ before /let row = get_row\(range\)\?;/
+//@@ before /let row = get_row/
                         proof { if good { reveal(row_of); } }
-//@@ before /let \(row, col\) = get_row_column\(range\)\?;/
+//@@ before /let \(row, col\) = /
                         proof { if good { reveal(cell_of); } }
-//@@ before /let mut value = DataRef::Empty;/
+//@@ before /let mut value = DataRef/
                     let ghost cattrs = ev[gp].attrs;
                     let ghost ctot = cell_scan(ev, gp + 1, cattrs, DV::Empty, false, cx);
                     let ghost mut seen = false;
